@@ -99,15 +99,16 @@ Fixpoint reader_orderb (seen_snaplist seen_idxlist : bool) (tr : list rop) : boo
 
 Inductive wop := WPack | WIdx | WSnap | WOther.
 
-(* type-level shape of a backup's uploads: no pack after the last index before the snapshot, the snapshot
-   comes last and is preceded by an index whenever a pack was saved *)
-Fixpoint writer_orderb (dirty : bool) (snapped : bool) (tr : list wop) : bool :=
+(* type-level shape of a writer's uploads (backup, copy, rewrite, tag, ...): whenever a snapshot is saved,
+   every pack saved before it is followed by an index upload (dirty = a pack was saved since the last
+   index).  Later batches may upload packs again (copy saves one batch of snapshots after the other). *)
+Fixpoint writer_orderb (dirty : bool) (tr : list wop) : bool :=
   match tr with
   | [] => true
-  | WPack :: r => if snapped then false else writer_orderb true snapped r
-  | WIdx :: r => if snapped then false else writer_orderb false snapped r
-  | WSnap :: r => if dirty then false else writer_orderb dirty true r
-  | WOther :: r => writer_orderb dirty snapped r
+  | WPack :: r => writer_orderb true r
+  | WIdx :: r => writer_orderb false r
+  | WSnap :: r => if dirty then false else writer_orderb dirty r
+  | WOther :: r => writer_orderb dirty r
   end.
 
 Inductive case :=
@@ -118,14 +119,14 @@ Inductive case :=
 Definition check_C14 (c : case) : bool :=
   match c with
   | CReader tr failed => andb (reader_orderb false false tr) (negb failed)
-  | CWriter tr n => andb (writer_orderb false false tr) (Nat.eqb n 0)
+  | CWriter tr n => andb (writer_orderb false tr) (Nat.eqb n 0)
   | CWriterSem v0 tr => wfb v0 tr
   end.
 
 Definition check_case (c : case) : nat :=
   match c with
   | CReader tr failed => if negb (reader_orderb false false tr) then 2 else if failed then 4 else 0
-  | CWriter tr n => if negb (writer_orderb false false tr) then 3 else if Nat.eqb n 0 then 0 else 4
+  | CWriter tr n => if negb (writer_orderb false tr) then 3 else if Nat.eqb n 0 then 0 else 4
   | CWriterSem v0 tr => if wfb v0 tr then 0 else 3
   end.
 
